@@ -31,12 +31,12 @@ from lib import shard
 from lib.evidence import Check
 
 PID = "C14"
-ENGINE = "E2-raw-drivers+E1-svcgen-rig+E5-models"
-TECHNIQUE = "differential replay of every continuation against a cache-0 worker under a logical clock"
+ENGINE = "E2-raw-drivers+E1-svcgen-rig+E5-models+E3-scheduler"
+TECHNIQUE = "differential replay of every continuation against a cache-0 worker under a logical clock; overlapping requests on one worker under a deterministic scheduler (DFS + PCT over cache statements)"
 LEVEL_TEXT = (
     "Exploration: seeded random histories (init/continuation/exchange/cancel, honest and hostile call-token variants, several "
     "streams and identities, 2-3 workers, cache capacities 0..3, clock steps around the TTL incl. sub-second offsets) plus a "
-    "forced call-id-collision leg; every continuation was replayed on a cache-0 worker at the same logical instant and the two "
+    "forced call-id-collision leg, plus a concurrent leg (2-3 overlapping requests on one cap-1/2 worker, yield points at every statement of the cache's get/put and at its lock, bounded-preemption DFS + PCT); every continuation was replayed on a cache-0 worker at the same logical instant and the two "
     "outcomes, returned cursor contents and observed call-state owners compared. Held means no divergence on those executions."
 )
 LEVEL_NOTE = "logical clock substituted for `time` in _state_token/_app_stream; returned cursors opened with the repo's own opener as a tool"
@@ -316,10 +316,147 @@ def run_history(hseed: str, chk: Check, *, collide: bool = False) -> None:
         st.os = real_os  # type: ignore[assignment]
 
 
+# ---------------------------------------------------------------------------
+# concurrent leg: requests of several streams overlap on one worker thread pool
+# ---------------------------------------------------------------------------
+
+
+def run_concurrent(cseed: str, chk: Check, *, bound: int, max_dfs: int, pct: int) -> None:
+    """Overlapping requests on ONE worker with a small call-state cache, under the deterministic scheduler.
+
+    The worker's cache lock is a scheduler-aware lock and every statement of ``_CallStateCache.get`` / ``put`` is
+    a yield point, so a request of one stream can be suspended anywhere inside the cache while requests of other
+    streams insert, evict and expire entries.  Each continuation's outcome is compared with the replay of the same
+    bytes on a cache-0 worker.
+    """
+    from lib import sched as S
+    from lib.models import tokenlab as tl
+    from vgi_rpc.http.server import _state_token as st
+
+    rng = random.Random(cseed)
+    cap = rng.choice([1, 1, 2])
+    nstreams = rng.choice([2, 3])
+    ttl = 20
+    kinds = [rng.choice(["cont_warm", "cont_warm", "cont_cold", "init"]) for _ in range(rng.choice([2, 2, 3]))]
+    if not any(k.startswith("cont") for k in kinds):
+        kinds[0] = "cont_warm"
+    script = {"cap": cap, "streams": nstreams, "actors": kinds, "seed": cseed}
+    ref: list[Any] = [None]
+    real_threading = st.threading
+    st.threading = S.shim_threading(ref)  # type: ignore[assignment]
+    ids = [tl.ID_INDEX[x] for x in IDS]
+    outcomes: list[Any] = []
+
+    def make_run_for(mode: str) -> Any:
+        def make_run(strategy: Any) -> Any:
+            ref[0] = None
+            clock = tl.Clock(1_700_000_000.0)
+            tl.install_clock(clock)
+            world = World([cap], ttl, clock)
+            w = world.workers[0]
+            srng = random.Random(cseed + ":streams")
+            streams = []
+            for _ in range(nstreams):
+                method, idx = srng.choice(["pc", "pc", "pa", "xa"]), srng.choice(ids)
+                resp = tl.init_stream(w["app"], method, idx)
+                cur, call = tl.tokens_of(resp)
+                streams.append({"method": method, "idx": idx, "cur": cur, "call": call})
+            # with cap < nstreams the oldest streams are already evicted ("cold"), the newest are live ("warm")
+            warm, cold = streams[-cap:], streams[:-cap] or streams[:1]
+            s = S.Scheduler(strategy, max_steps=6000, watchdog_s=30.0)
+            ref[0] = s
+            results: list[dict[str, Any]] = []
+
+            def actor_fn(kind: str, k: int) -> Any:
+                def run() -> None:
+                    if kind == "init":
+                        method, idx = srng2[k]
+                        resp = tl.init_stream(w["app"], method, idx)
+                        o = tl.outcome(resp)
+                        results.append({"kind": kind, "method": method, "idx": idx, "body": None, "outcome": o})
+                        return
+                    stx = (warm if kind == "cont_warm" else cold)[k % len(warm if kind == "cont_warm" else cold)]
+                    body = tl.cont_body(IN_COLS[stx["method"]], stx["cur"], stx["call"])
+                    o = world.send(w, stx["method"], stx["idx"], body)
+                    results.append({"kind": kind, "method": stx["method"], "idx": stx["idx"], "body": body, "outcome": o})
+
+                return run
+
+            r2 = random.Random(cseed + ":inits")
+            srng2 = {k: (r2.choice(["pc", "pa", "xa"]), r2.choice(ids)) for k in range(len(kinds))}
+            for k, kind in enumerate(kinds):
+                s.actor(f"{kind}{k}", actor_fn(kind, k))
+            s.monitor_files(("vgi_rpc/http/server/_state_token.py",), line=(mode == "line"), funcs={"get", "put"})
+            try:
+                s.run()
+            finally:
+                S.Scheduler.unmonitor()
+                ref[0] = None
+            outcomes.append((s, results, world))
+            return s
+
+        return make_run
+
+    def judge(s: Any) -> None:
+        _s, results, world = outcomes[-1]
+        outcomes.clear()
+        chk.case(f"concurrent:cap{cap}:{'+'.join(sorted(kinds))}|{len(s.decisions)}:{hash(tuple(s.decisions)) & 0xFFFFFF:x}")
+        chk.hit("concurrent_schedules")
+        if s.deadlock:
+            chk.violation("concurrent_deadlock", "no runnable request thread although requests are unfinished", {"script": script, "decisions": s.decisions})
+            return
+        if s.step_limit_hit or getattr(s, "watchdog_fired", False) or getattr(s, "diverged", None):
+            chk.skip("concurrent_schedule_unfinished")
+            return
+        if s.preemptions > 0:
+            chk.hit("concurrent_preempted_schedules")
+        for a in s.actors:
+            if a.exc is not None:
+                chk.violation(f"concurrent_request_raised:{type(a.exc).__name__}", f"a request thread raised {a.exc!r}", {"script": script, "decisions": s.decisions})
+        for r in results:
+            ow = r["outcome"]
+            if r["kind"] == "init":
+                chk.hit("concurrent_inits_judged")
+                if ow["status"] != 200 or ow["error"] is not None:
+                    chk.violation(f"concurrent_init_failed:status{ow['status']}", "a stream init overlapping other requests failed", {"script": script, "decisions": s.decisions, "outcome": {k: ow[k] for k in ("status", "error")}})
+                continue
+            orf = world.send(world.ref, r["method"], r["idx"], r["body"])
+            chk.hit("concurrent_continuations_compared")
+            # the implementation's invocation log is shared by the overlapping requests: the reference's entries
+            # must all be among those logged while this request ran (other requests' entries are interleaved)
+            same = all(ow[k] == orf[k] for k in ("status", "error", "batches", "cursor", "rpc_error_header")) and all(e in ow["new_inv"] for e in orf["new_inv"])
+            if not same:
+                chk.violation(
+                    f"concurrent_cache_changes_outcome:{r['kind']}:{_cause(ow)}_vs_{_cause(orf)}",
+                    f"a continuation overlapping other requests on a cap-{cap} worker was answered {_cause(ow)}; the cache-0 reference answered {_cause(orf)}",
+                    {
+                        "script": script,
+                        "decisions": s.decisions,
+                        "trace_tail": [lbl for _i, lbl in s.trace[-40:]],
+                        "worker_outcome": {k: ow[k] for k in ("status", "error", "batches", "cursor", "new_inv")},
+                        "reference_outcome": {k: orf[k] for k in ("status", "error", "batches", "cursor", "new_inv")},
+                    },
+                )
+            else:
+                chk.hit("concurrent_outcomes_equal")
+
+    try:
+        st1 = S.explore_dfs(make_run_for("coarse"), bound=bound, max_schedules=max_dfs, on_done=judge)
+        chk.extra["concurrent_dfs_schedules"] = chk.extra.get("concurrent_dfs_schedules", 0) + st1["distinct"]
+        strategies = [S.PCTStrategy(random.Random(rng.random()), len(kinds), depth=3, horizon=150) for _ in range(pct)]
+        st2 = S.explore_sampled(make_run_for("line"), strategies, on_done=judge)
+        chk.extra["concurrent_pct_schedules"] = chk.extra.get("concurrent_pct_schedules", 0) + st2["schedules"]
+    finally:
+        st.threading = real_threading  # type: ignore[assignment]
+
+
 def run_shard(job: dict[str, Any]) -> dict[str, Any]:
     chk = Check(PID, job["tier"], job["seed"], level=CATEGORY, rule=RULE)
     try:
         for h in job["histories"]:
+            if h.startswith("conc"):
+                run_concurrent(h, chk, bound=job.get("bound", 2), max_dfs=job.get("max_dfs", 60), pct=job.get("pct", 20))
+                continue
             run_history(h, chk, collide=h.startswith("collide"))
     except Exception as exc:  # noqa: BLE001
         import traceback
@@ -343,16 +480,20 @@ def main(tier: str, seed: int) -> int:
         "clock_shim_read",
         "forced_call_id_used",
         "cancels",
+        "concurrent_schedules",
+        "concurrent_preempted_schedules",
+        "concurrent_continuations_compared",
+        "concurrent_outcomes_equal",
     )
     chk.assumptions += [
         "logical clock rebound over `time` in _state_token and _app_stream; `os.urandom(16)` of _state_token rebound in the collision leg only",
         "forced call-id collisions are generated only between streams of different identities; the anon vs ('', 'anonymous') pair is excluded (cache identity strings coincide; reachable only with a 2^-128 collision)",
         "the repo's _open_cursor_token/_compute_aad are used as a tool to read returned cursors",
     ]
-    n, nc = (600, 160) if tier == "quick" else (10000, 2500)
-    hs = [f"h:{seed}:{i}" for i in range(n)] + [f"collide:{seed}:{i}" for i in range(nc)]
+    n, nc, nconc = (600, 160, 24) if tier == "quick" else (10000, 2500, 400)
+    hs = [f"h:{seed}:{i}" for i in range(n)] + [f"collide:{seed}:{i}" for i in range(nc)] + [f"conc:{seed}:{i}" for i in range(nconc)]
     random.Random(f"C14:{seed}").shuffle(hs)
-    jobs = [{"histories": part, "tier": tier, "seed": seed} for part in shard.split(hs, 12 if tier == "quick" else 64)]
+    jobs = [{"histories": part, "tier": tier, "seed": seed, "bound": 2, "max_dfs": 60 if tier == "quick" else 250, "pct": 20 if tier == "quick" else 60} for part in shard.split(hs, 12 if tier == "quick" else 64)]
     for res in shard.pmap("checks.c14", "run_shard", jobs, timeout=1500.0):
         chk.merge(res)
     chk.extra["histories_planned"] = len(hs)
